@@ -4,6 +4,7 @@ import VlsModel.Gen.FnKvvPersist
 import VlsModel.Gen.FnPersistModel
 import VlsModel.Gen.FnKvvKeys
 import VlsModel.Gen.FnKvvPass
+import VlsModel.Gen.FnNodePrune
 import VlsModel.Model.Backup
 import VlsModel.Lemmas.FnGen
 /-
@@ -570,4 +571,133 @@ theorem C11_fn_node_end_to_end {SelfT PublicKey Network Allowable IM PM PS : Typ
     FnKvvPersist.CoreVelocityControl.«from» (vcK (FnPersistModel.VelocityControl.«from» st.fee_velocity_control)), rfl, rfl, h⟩
 
 end NodeEndToEnd
+
+/-! ## Round 10 (builder b5): `Node::prune_channels` translated from the source (`Gen.FnNodePrune`,
+    `translate/fn_targets/NodePrune.b5.json`)
+
+`get_heartbeat` → `prune_channels` is the one place where a READY channel leaves the store.  The persisters key a channel
+entry by the key the caller passes (`C11_fn_kvv_make_key`: prefix + hex of that id) and the channel map holds a channel
+with a permanent id under both its ids, so *which* id goes to `delete_channel` decides whether a restarted signer still
+has the channel (seed C11-r7-1: the permanent id instead of the map key — the entry under id0 survives while the
+tracker entry loses the listener; the restart aborts).  The translated body says: every key taken out of the map goes,
+itself, to `delete_channel`; a `Ready` slot's listener is removed under the monitor's funding outpoint; and a tracker
+that lost a listener is the tracker handed to `update_tracker`. -/
+section Prune
+open VlsModel.Gen.FnNodePrune
+
+/-- invariant of a fold whose state ends in (tracker, modified-flag) -/
+theorem prune_fold_inv {K C T : Type} (P : K → Prop) (f : C × T × Bool → K → VlsModel.Rs.M (C × T × Bool))
+    (hstep : ∀ s k s', f s k = .ok s' → P k ∧ (s'.2.2 = false → s'.2.1 = s.2.1 ∧ s.2.2 = false)) :
+    ∀ (keys : List K) (s s' : C × T × Bool), List.foldlM f s keys = .ok s' →
+      (∀ k ∈ keys, P k) ∧ (s'.2.2 = false → s'.2.1 = s.2.1 ∧ s.2.2 = false) := by
+  intro keys
+  induction keys with
+  | nil =>
+    intro s s' h
+    simp only [List.foldlM_nil, pure, Except.pure, Except.ok.injEq] at h
+    subst h
+    exact ⟨by simp, fun h => ⟨rfl, h⟩⟩
+  | cons k ks ih =>
+    intro s s' h
+    simp only [List.foldlM_cons, bind, Except.bind] at h
+    cases hf : f s k with
+    | error e => rw [hf] at h; cases h
+    | ok s1 =>
+      rw [hf] at h
+      obtain ⟨hp, h1⟩ := hstep s k s1 hf
+      obtain ⟨hall, h2⟩ := ih s1 s' h
+      refine ⟨?_, ?_⟩
+      · intro k' hk'
+        rcases List.mem_cons.mp hk' with rfl | hk'
+        · exact hp
+        · exact hall k' hk'
+      · intro hm
+        obtain ⟨e2, m1⟩ := h2 hm
+        obtain ⟨e1, m0⟩ := h1 m1
+        exact ⟨e2.trans e1, m0⟩
+
+/-- **C11_fn_prune_channels**: whenever `Node::prune_channels` (as it is in the source now) returns, (a) for EVERY key it
+    took out of the channel map, `persister.delete_channel(node id, that very key)` was called and acknowledged — the
+    store key of the delete is the map key, never another id of the channel — and (b) the tracker it leaves behind is the
+    one it was given (no listener removed) or it is exactly the tracker that `persister.update_tracker` was handed and
+    acknowledged.  For all implementations of the persister, the tracker and the selection of the prunable keys. -/
+theorem C11_fn_prune_channels {ChannelId OutPoint Network PublicKey Persist ChainTracker : Type} [DecidableEq ChannelId]
+    (chs : Node ChannelId OutPoint Network PublicKey Persist → List (ChannelId × (ChannelSlot OutPoint)))
+    (keysOf : List (ChannelId × (ChannelSlot OutPoint)) → Node ChannelId OutPoint Network PublicKey Persist → ChainTracker → List ChannelId)
+    (rm : ChainTracker → OutPoint → ChainTracker) (del : Persist → PublicKey → ChannelId → Option Unit)
+    (upd : Persist → PublicKey → ChainTracker → Option Unit)
+    (self : Node ChannelId OutPoint Network PublicKey Persist) (tracker t' : ChainTracker)
+    (h : Node.prune_channels chs keysOf rm del upd self tracker = .ok t') :
+    (∀ k ∈ keysOf (chs self) self tracker, del self.persister self.node_id k = some ()) ∧
+    (t' = tracker ∨ upd self.persister self.node_id t' = some ()) := by
+  unfold Node.prune_channels at h
+  simp only [bind, Except.bind] at h
+  split at h
+  · cases h
+  · rename_i s hfold
+    obtain ⟨c', tr', m'⟩ := s
+    have inv := prune_fold_inv (C := List (ChannelId × (ChannelSlot OutPoint))) (T := ChainTracker)
+      (fun k => del self.persister self.node_id k = some ()) _ (by
+        intro s k s' hs
+        obtain ⟨c, tr, m⟩ := s
+        simp only [bind, Except.bind, Node.get_id] at hs
+        cases hg : VlsModel.Rs.omapGet c k with
+        | none => simp [hg, VlsModel.Rs.unwrap, VlsModel.Rs.panic] at hs
+        | some slot =>
+          cases hd : del self.persister self.node_id k with
+          | none => simp [hg, hd, VlsModel.Rs.unwrap, VlsModel.Rs.panic, pure, Except.pure] at hs
+          | some u =>
+            cases slot with
+            | Stub st =>
+              simp [hg, hd, VlsModel.Rs.unwrap, pure, Except.pure] at hs
+              subst hs
+              exact ⟨rfl, fun hm => ⟨rfl, hm⟩⟩
+            | Ready ch =>
+              simp [hg, hd, VlsModel.Rs.unwrap, pure, Except.pure] at hs
+              subst hs
+              exact ⟨rfl, fun hm => by cases hm⟩) _ _ _ hfold
+    refine ⟨inv.1, ?_⟩
+    simp only at h
+    cases m' with
+    | false =>
+      simp [pure, Except.pure] at h
+      subst h
+      exact Or.inl (inv.2 rfl).1
+    | true =>
+      simp only [Node.get_id, if_true] at h
+      cases hu : upd self.persister self.node_id tr' with
+      | none => simp [hu, VlsModel.Rs.unwrap, VlsModel.Rs.panic] at h
+      | some u =>
+        simp [hu, VlsModel.Rs.unwrap, pure, Except.pure] at h
+        subst h
+        exact Or.inr hu
+
+/-- **C11_fn_node_getters**: the accessors the pruning (and every persisting request) reads the node through are the
+    fields themselves: `get_channels()` is the channel map, `get_id()` the node id every store key is built from,
+    `network()` the configured network. -/
+theorem C11_fn_node_getters {ChannelId OutPoint Network PublicKey Persist : Type}
+    (self : Node ChannelId OutPoint Network PublicKey Persist) :
+    self.get_channels = self.channels ∧ self.get_id = self.node_id ∧ self.network = self.node_config.network :=
+  ⟨rfl, rfl, rfl⟩
+
+/-- non-vacuity: a ready channel that is in the map under its initial id (1) and its permanent id (2), both prunable:
+    the run returns, both map keys are deleted in the store under themselves, the listener is removed and the tracker
+    (here: the list of funding outpoints still listened to) that is written is the one without it. -/
+example :
+    let node : Node Nat Nat Nat Nat Nat :=
+      { node_config := ⟨0⟩, channels := [(1, .Ready ⟨⟨7⟩⟩), (2, .Ready ⟨⟨7⟩⟩), (3, .Stub ⟨⟩)], persister := 0, node_id := 9 }
+    Node.prune_channels (fun n => n.channels) (fun c _ _ => (c.map (·.1)).filter (· != 3))
+      (fun t o => t.filter (· != o)) (fun _ _ _ => some ()) (fun _ _ _ => some ()) node [7, 8] = .ok [8] := by
+  intro node; rfl
+
+/-- … and a store that refuses the delete of one of the keys makes the request abort (it is not acknowledged). -/
+example :
+    let node : Node Nat Nat Nat Nat Nat :=
+      { node_config := ⟨0⟩, channels := [(1, .Ready ⟨⟨7⟩⟩), (2, .Ready ⟨⟨7⟩⟩)], persister := 0, node_id := 9 }
+    Node.prune_channels (fun n => n.channels) (fun c _ _ => c.map (·.1))
+      (fun t o => t.filter (· != o)) (fun _ _ k => if k = 2 then none else some ()) (fun _ _ _ => some ()) node [7, 8]
+      = .error .panic := by
+  intro node; rfl
+
+end Prune
 end VlsModel.Props.C11Fn
